@@ -43,6 +43,16 @@ TParse == /\ IsEv(l, "Parse")
           /\ l' = l + 1
           /\ UNCHANGED <<bounds, counts, total, lats>>
 
+\* a list whose first bound is negative (-negfirst): accepted, the bounds exactly as given - no zero bound in front
+TParseNeg == /\ IsEv(l, "ParseNeg")
+             /\ LET e == Ev(l) IN
+                /\ e.ok = TRUE
+                /\ e.abs = <<e.negfirst>> \o e.rest
+                /\ Len(e.signs) = Len(e.abs) /\ e.signs[1] = -1
+                /\ \A i \in 2..Len(e.signs) : e.signs[i] = (IF e.abs[i] = << >> THEN 0 ELSE 1)
+             /\ l' = l + 1
+             /\ UNCHANGED <<bounds, counts, total, lats>>
+
 \* contract step: exactly the bucket [lo, next) of the latency is incremented
 TAdd == /\ IsEv(l, "Add")
         /\ LET lat == Ev(l).lat IN
@@ -75,7 +85,7 @@ TRender == /\ IsEv(l, "Render")
            /\ l' = l + 1
            /\ UNCHANGED <<bounds, counts, total, lats>>
 
-TNext == TReset \/ TParse \/ TAdd \/ TFeed \/ TRender
+TNext == TReset \/ TParse \/ TParseNeg \/ TAdd \/ TFeed \/ TRender
 
 TSpec == TInit /\ [][TNext]_vars
 
